@@ -29,27 +29,60 @@ CLAIM = dict(
           "whole fill or, if in that fill's missed set, ignores it), for ALL application maps, images, buffer sizes, "
           "machines and ALL per-fill missed sets: every fill the controller sends is well formed (announced block count = "
           "blocks sent, numbered 0,1,2.., each block <= buffer, concatenation = image, one even id in 2..252, FFCS between "
-          "FFS and FFE in the order compress returned); a well-formed fill loads exactly the selected cores of the chips "
+          "FFS and the first data packet and STRICTLY INCREASING - derived in Lean from C12's theorems for C12's model of "
+          "compress_flood_fill_regions, fill_wellformed_c12); a well-formed fill loads exactly the selected cores of the chips "
           "that took part; under PreClean (no core waiting under this app id, no requested core waiting) a normal return "
           "means exactly the requested cores hold their binary under the app id, waiting or started as asked, and every "
           "other core is untouched, in both verification modes; SpiNNakerLoadingError names exactly the requested cores "
-          "that are not loaded; at most n_tries + 1 attempts, each re-sending exactly the still-unloaded map. Without "
-          "PreClean the counterexamples (stale waiters mask missing cores in count mode / a waiting requested core is "
-          "accepted by the read-back) are proved on the model and replayed on the code on every run (known findings). "
+          "that are not loaded; at most n_tries + 1 attempts, each re-sending exactly the still-unloaded map; these hold "
+          "with the region-compression contract as a hypothesis (CompressOK) and, with no such hypothesis, for the "
+          "controller whose compress is C12's model (compress_contract_discharged, *_c12). Exactly one start signal is "
+          "sent, as the last request, on a normal return with wait=False and no signal packet otherwise "
+          "(start_signal_once; no hypothesis besides app id < 256). Without PreClean: a normal return is unsound IFF the "
+          "Lean predicate staleMasks holds of the pre-state, the request and the violating cores (every violating core "
+          "was itself waiting before the call, or - count mode - the stale waiters on other cores are as many as the "
+          "violating cores that do not count themselves): load_sound_iff_preclean_needed; the error omits an unloaded "
+          "core IFF staleHides (load_error_iff_preclean_needed); the two counterexamples are proved instances and are "
+          "replayed on the code on every run (known findings), and a post-condition violation is filed under a known "
+          "finding only when the Lean predicate holds on the case. send_signal (argument packing for every member of "
+          "AppSignal, ValueError otherwise, KeyError impossible), count_cores_in_state (packing, reply decoding, sum "
+          "over an iterable, ValueError after the valid prefix) and wait_for_cores_to_reach_state (returns the count of "
+          "the first poll that reached the count or passed the deadline; terminates within timeout+1 polls under "
+          "clock progress; never ends without timeout if the count is never reached) are modelled and proved "
+          "(Props/C09Sig.lean) with the enumerations and signal-type tables regenerated from consts.py. "
           "Tied to the code by exact request/reply trace correspondence through the real SCPConnection against a "
-          "simulated machine that is itself replayed through the Lean machine specification, and by the Lean oracles "
-          "evaluated on the implementation's packets and on the machine's core states."),
+          "simulated machine that is itself replayed through the Lean machine specification (load: with the "
+          "implementation's region pairs AND with C12's compress model; signals/count/wait: scripted integer clock and "
+          "machine evolution during the sleeps), and by the Lean oracles evaluated on the implementation's packets, "
+          "requests and core states."),
     design="3/C09",
-    note=("Region selection (compress_flood_fill_regions) is property C12: here its contract is a hypothesis (CompressOK) "
-          "checked by the Lean predicate regionsOK on every pair the implementation produced. Packet loss inside a fill "
-          "is abstracted to whole-fill misses per chip. Domain: image length and buffer multiples of 4, <= 255 blocks "
-          "(8-bit field of the start packet: beyond it the fill is malformed - known finding ffs-block-count-overflow), "
-          "requested chips exist, cores < 18, binaries target disjoint cores. SCP transport reliability is C06."),
+    note=("Proved about the model, validated against the code by correspondence: everything above. Only validated (per "
+          "run, not proved): that the model equals the code (trace correspondence on generated cases); regionsOK on every "
+          "pair the implementation produced (the proof is about C12's model of compress, whose output equals the "
+          "implementation's in every fill compared). Packet loss inside a fill is abstracted to whole-fill misses per "
+          "chip. Domain: image length and buffer multiples of 4, <= 255 blocks (8-bit field of the start packet: beyond "
+          "it the fill is malformed - known finding ffs-block-count-overflow), requested chips exist (coordinates < 256 "
+          "for the _c12 theorems), cores < 18, binaries target disjoint cores, each core listed once (for the count "
+          "clause of staleMasks). wait_for_cores_to_reach_state: the iterable of states must be re-iterable (a generator "
+          "is consumed by the first poll); time is an integer clock supplied by the environment; `while True` is modelled "
+          "with fuel and an explicit out-of-fuel result. The machine specification models only the start signal and the "
+          "count request; for the other signals only the packing is proved/compared. SCP transport reliability is C06."),
     technique="Lean 4 theorems over controller model x machine specification + trace correspondence against a simulated machine + Lean spec oracles")
 
 THEOREMS = ["nnid_range", "fill_wellformed", "fill_loads_exactly", "attempts_bounded",
             "load_sound", "load_error_exact", "resend_exact",
-            "count_shortcut_counterexample", "readback_counterexample", "block_count_overflow_example"]
+            "count_shortcut_counterexample", "readback_counterexample", "block_count_overflow_example",
+            # region-compression contract discharged by C12 (no CompressOK hypothesis)
+            "compress_contract_discharged", "compressC12_eq", "fill_wellformed_c12", "load_sound_c12",
+            "load_error_exact_c12", "attempts_bounded_c12", "resend_exact_c12",
+            # the start signal
+            "start_signal_once", "start_signal_count", "start_once_oracle_holds",
+            # send_signal / count_cores_in_state / wait_for_cores_to_reach_state (Props/C09Sig.lean)
+            "signal_types_total", "signal_packing_exact", "start_signal_is_send_signal", "count_packing_exact",
+            "count_cores_sum", "count_cores_invalid", "wait_returns_count", "wait_terminates_under_clock_progress",
+            # the stale-waiter findings, sharply (Props/C09Stale.lean)
+            "postOk_false_iff", "count_masks", "load_sound_iff_preclean_needed",
+            "postErr_false_iff", "load_error_iff_preclean_needed"]
 
 RULE = ("cases = (machine of 1-40 chips: rectangles at several origins incl. aligned 4x4/8x8 blocks, scattered chips up to "
         "coordinate 255; 1-3 binaries of length around multiples of the buffer (buffer in {4,8,16,64,128,256}); core sets "
@@ -57,7 +90,12 @@ RULE = ("cases = (machine of 1-40 chips: rectangles at several origins incl. ali
         "mode, starting nn-id incl. 125/126; per-fill missed sets none / random / all / alternating / all-then-none; "
         "pre-existing cores: none, other app ids, stale waiters of the same app id on requested and on other cores); "
         "non-trivial = some chip missed a fill and a re-send happened, or the call ended in SpiNNakerLoadingError, or a "
-        "stale waiter was present; distinct = distinct canonical JSON of the case")
+        "stale waiter was present; distinct = distinct canonical JSON of the case; plus signalling cases = (machine of "
+        "1-10 chips with random core states; send_signal with every member of AppSignal by name / member / int and "
+        "invalid names and numbers; count_cores_in_state with one state or a list / tuple / generator of 0-4 states incl. "
+        "invalid ones; wait_for_cores_to_reach_state with target counts around the current count, timeout none or 0-8 "
+        "ticks, clock scripts advancing by one / jumping / stalling, up to 5 evolution steps of the machine during the "
+        "sleeps, fuel 4-9), non-trivial = at least one sleep, a list of states, an error or a delivered signal")
 
 BUFS = [4, 8, 16, 16, 64, 64, 128, 256, 256]
 WAIT, RUN, IDLE = 5, 7, 15
@@ -318,7 +356,8 @@ def gen_case(rng, overflow=False):
             missed[k] = missed[k - k % n_apps]
     # pre-existing cores
     pre = {}
-    pre_mode = rng.choice(["none", "none", "none", "other-app", "stale-other-core", "stale-requested", "mixed"])
+    pre_mode = rng.choice(["none", "none", "none", "other-app", "stale-other-core", "stale-requested", "mixed",
+                           "stale-vs-missed", "stale-vs-missed"])
     all_cores = [(x, y, p) for (x, y) in chips for p in range(18)]
     requested = sorted(used)
 
@@ -337,12 +376,30 @@ def gen_case(rng, overflow=False):
         free = [c for c in all_cores if c not in used]
         for core in rng.sample(free, min(len(free), rng.randrange(1, 4))):
             put(core, WAIT, app_id)
+    force_count = None
+    if pre_mode == "stale-vs-missed":
+        # one chip misses every fill; k stale waiters under the app id on cores that were NOT requested, with k
+        # below / equal to / above the number m of requested cores of that chip: the count shortcut is fooled
+        # only for k == m (known finding); for every other k the call must retry and end in the error
+        with_req = [c for c in chips if any((c[0], c[1], p) in used for p in range(18))]
+        lost = rng.choice(with_req) if with_req else stubborn
+        m = sum(1 for p in range(18) if (lost[0], lost[1], p) in used)
+        k = max(1, rng.choice([m - 2, m - 1, m, m, m + 1, m + 2, m + 3, 2 * m + 1]))
+        free = [c for c in all_cores if c not in used]
+        if rng.random() < 0.5:
+            free = [c for c in free if (c[0], c[1]) != tuple(lost)] or free
+        for core in rng.sample(free, min(len(free), k)):
+            put(core, WAIT, app_id)
+        missed = [[lost] for _ in range(max_fills)]
+        mode = "one-chip"
+        force_count = rng.random() < 0.8
     if pre_mode in ("stale-requested", "mixed") and requested:
         for core in rng.sample(requested, min(len(requested), rng.randrange(1, 3))):
             put(core, WAIT, rng.choice([app_id, app_id, app_id % 255 + 1]))
     return {"chips": chips, "buf": buf, "sdram_sys": 0x60000000 + 4 * rng.randrange(1 << 16),
             "vcpu_base": 0xe5007000 + 128 * rng.randrange(4), "apps": apps, "app_id": app_id,
-            "n_tries": n_tries, "wait": rng.random() < 0.5, "use_count": rng.random() < 0.6,
+            "n_tries": n_tries, "wait": rng.random() < 0.5,
+            "use_count": (rng.random() < 0.6) if force_count is None else force_count,
             "nn": rng.choice([0, 0, 1, 57, 124, 125, 126]), "missed": missed,
             "pre": [pre[k] for k in sorted(pre)], "missed_mode": mode, "pre_mode": pre_mode}
 
@@ -354,6 +411,18 @@ def stale_count_case():
             "app_id": 30, "n_tries": 2, "wait": True, "use_count": True, "nn": 0,
             "missed": [[[1, 0]], [[1, 0]], [[1, 0]]], "pre": [[0, 0, 5, WAIT, 30, [9, 9, 9, 9]]],
             "missed_mode": "finding", "pre_mode": "finding"}
+
+
+def stale_more_case(k_stale):
+    """count mode, chip (1, 0) with 2 requested cores misses every fill, k stale waiters on other cores:
+    only k == 2 fools the count (known finding); for any other k the call must end in the error naming
+    exactly the two cores of (1, 0) - a `>=` / `<=` in the count comparison returns normally instead"""
+    return {"chips": [[0, 0], [1, 0]], "buf": 16, "sdram_sys": 0x60000000, "vcpu_base": 0xe5007000,
+            "apps": [{"name": 0, "image": list(range(16)), "targets": [[0, 0, [1]], [1, 0, [1, 2]]]}],
+            "app_id": 30, "n_tries": 1, "wait": True, "use_count": True, "nn": 0,
+            "missed": [[[1, 0]], [[1, 0]]],
+            "pre": [[0, 0, 5 + i, WAIT, 30, [9, 9, 9, 9]] for i in range(k_stale)],
+            "missed_mode": "one-chip", "pre_mode": "stale-vs-missed"}
 
 
 def stale_readback_case():
@@ -538,6 +607,10 @@ def eval_cases(ctx, cases):
         batch.append(("model", dict(base, op="load", compress=res["records"], buf=case["buf"], app_id=case["app_id"],
                                     n_tries=case["n_tries"], wait=case["wait"], use_count=case["use_count"],
                                     apps=apps_j, nn=case["nn"])))
+        # the controller of the `_c12` theorems: region compression by C12's model instead of the table
+        batch.append(("model_c12", dict(base, op="load", buf=case["buf"], app_id=case["app_id"],
+                                        n_tries=case["n_tries"], wait=case["wait"], use_count=case["use_count"],
+                                        apps=apps_j, nn=case["nn"])))
         batch.append(("machine", dict(base, op="machine", reqs=[r for r, _ in res["trace"]])))
         fills = split_fills(res["trace"], k)
         for i, f in enumerate(fills):
@@ -561,18 +634,37 @@ def eval_cases(ctx, cases):
             if res["outcome"] != "ok":
                 post["unloaded"] = [dict(a, image=[]) for a in res["outcome"]["loading_error"]]
             batch.append(("post", post))
+        if isinstance(res["outcome"], str) or "loading_error" in res["outcome"]:
+            batch.append(("start_once", dict(suite="c09", op="start_once", app_id=case["app_id"],
+                                             started=(res["outcome"] == "ok" and not case["wait"]),
+                                             reqs=[r for r, _ in res["trace"]])))
         metas.append((case, res, [b[0] for b in batch], len(fills)))
         reqs += [b[1] for b in batch]
     replies = ctx.lean(reqs)
     pos = 0
+    judged = []
     for case, res, kinds, n_fills in metas:
         rs = replies[pos:pos + len(kinds)]
         pos += len(kinds)
-        judge(ctx, case, res, kinds, rs, n_fills, k)
+        judged.append((case, res, kinds, rs, n_fills))
+    # a post-condition violation is filed under a known stale-waiter finding only if the proved predicate
+    # (staleMasks / staleHides, theorem load_sound_iff_preclean_needed) holds of the pre-state, the request and
+    # the violating cores
+    stale_reqs, stale_idx = [], {}
+    for i, (case, res, kinds, rs, n_fills) in enumerate(judged):
+        for kind, r in zip(kinds, rs):
+            if kind == "post" and "ok" in r and not r["ok"]:
+                stale_idx[i] = len(stale_reqs)
+                stale_reqs.append(dict(suite="c09", op="stale", chips=case["chips"], before=res["before"],
+                                       apps=case["apps"], app_id=case["app_id"], wait=case["wait"],
+                                       use_count=case["use_count"], missed=r["bad"]))
+    stale = ctx.lean(stale_reqs) if stale_reqs else []
+    for i, (case, res, kinds, rs, n_fills) in enumerate(judged):
+        judge(ctx, case, res, kinds, rs, n_fills, k, stale[stale_idx[i]] if i in stale_idx else None)
 
 
-def judge(ctx, case, res, kinds, rs, n_fills, k):
-    for r in rs:
+def judge(ctx, case, res, kinds, rs, n_fills, k, stale=None):
+    for r in list(rs) + ([stale] if stale else []):
         if "proto_error" in r:
             raise Infra("lean driver: %s" % r["proto_error"])
     clean = preclean(case)
@@ -630,37 +722,353 @@ def judge(ctx, case, res, kinds, rs, n_fills, k):
     if "post" in by:
         r = by["post"][0]
         if not r["ok"]:
-            pre = {(x, y, p): (st, app) for x, y, p, st, app, _ in case["pre"]}
-            requested = {(x, y, p) for a in case["apps"] for x, y, cs in a["targets"] for p in cs}
-            keys = set()
-            for c in r["bad"]:
-                c = tuple(c)
-                if clean or c not in requested:
-                    keys.add("load-unsound" if outcome == "ok" else "error-inexact")
-                elif pre.get(c, (IDLE, 0))[0] == WAIT:
-                    keys.add("readback-stale-waiter")
-                elif case["use_count"] and outcome == "ok":
-                    keys.add("count-shortcut-stale-waiters")
+            if outcome == "ok":
+                # theorem load_sound_iff_preclean_needed: unsound iff staleMasks(pre, request, violating cores)
+                if stale["masks"]:
+                    keys = {"readback-stale-waiter" if stale["self"] else "count-shortcut-stale-waiters"}
                 else:
-                    keys.add("load-unsound" if outcome == "ok" else "error-inexact")
+                    keys = {"load-unsound"}
+            else:
+                keys = {"readback-stale-waiter" if stale["hides"] else "error-inexact"}
+            ctx.tag("post_violation_" + sorted(keys)[0])
             for key in sorted(keys):
                 ctx.violation(key, "%s but cores %r do not satisfy the post-condition (requested cores hold their "
                               "binary under the app id and wait/run as asked, error names exactly the unloaded cores, "
                               "other cores untouched)" % (
                                   "load_application returned normally" if outcome == "ok" else "SpiNNakerLoadingError raised",
                                   r["bad"][:6]), case)
+    # the start signal: exactly one, the last request, only on a normal return with wait=False
+    # (theorem start_signal_once; anything it changes on the cores is a violation of `post` above)
+    if "start_once" in by and not by["start_once"][0]["ok"]:
+        ctx.mismatch("c09.start_once", "the requests of the call do not contain exactly one start signal as the last "
+                     "request (normal return, wait=False) / contain a signal packet (wait=True or error)", case)
     # ---- (a) model correspondence ------------------------------------------------------
-    mo = by["model"][0]
     it = [norm_entry(e) for e in canon_trace(res["trace"], k)]
-    mt = [norm_entry(e) for e in canon_trace([tuple(e) for e in mo["trace"]], k)]
-    if it != mt:
-        i = next((i for i, (a, b) in enumerate(zip(it, mt)) if a != b), min(len(it), len(mt)))
-        ctx.mismatch("c09.trace", "request/reply %d differs (impl %d entries, model %d): impl=%r model=%r" % (
-            i, len(it), len(mt), it[i:i + 1], mt[i:i + 1]), case)
-    elif canon_outcome(outcome) != canon_outcome(mo["outcome"]):
-        ctx.mismatch("c09.outcome", "impl=%r model=%r" % (canon_outcome(outcome), canon_outcome(mo["outcome"])), case)
-    elif sorted(mo["cores"]) != sorted(res["after"]) or mo["nn"] != res["nn"]:
-        ctx.mismatch("c09.state", "final core states / nn id differ: impl nn=%r model nn=%r" % (res["nn"], mo["nn"]), case)
+    for kind, suite in (("model", "c09"), ("model_c12", "c09.c12")):
+        mo = by[kind][0]
+        mt = [norm_entry(e) for e in canon_trace([tuple(e) for e in mo["trace"]], k)]
+        if it != mt:
+            i = next((i for i, (a, b) in enumerate(zip(it, mt)) if a != b), min(len(it), len(mt)))
+            ctx.mismatch(suite + ".trace", "request/reply %d differs (impl %d entries, model %d): impl=%r model=%r" % (
+                i, len(it), len(mt), it[i:i + 1], mt[i:i + 1]), case)
+        elif canon_outcome(outcome) != canon_outcome(mo["outcome"]):
+            ctx.mismatch(suite + ".outcome", "impl=%r model=%r" % (canon_outcome(outcome), canon_outcome(mo["outcome"])), case)
+        elif sorted(mo["cores"]) != sorted(res["after"]) or mo["nn"] != res["nn"]:
+            ctx.mismatch(suite + ".state", "final core states / nn id differ: impl nn=%r model nn=%r" % (res["nn"], mo["nn"]), case)
+        else:
+            continue
+        break
+
+
+# --------------------------------------------------------------------------
+# send_signal / count_cores_in_state / wait_for_cores_to_reach_state
+# (companion model RigModel/Model/C09Sig.lean, suite c09sig)
+# --------------------------------------------------------------------------
+def load_sig_tables():
+    """the generated enumerations (read back from the file the translator wrote from the source)"""
+    import re
+    from harness import common
+    t = {}
+    for line in open(os.path.join(common.GEN, "LoadSig.lean")):
+        m = re.match(r"def (\w+) : List \((\w+) × Nat\) := \[(.*)\]$", line.strip())
+        if m:
+            if m.group(2) == "String":
+                t[m.group(1)] = [(a, int(b)) for a, b in re.findall(r'\("(\w+)", (\d+)\)', m.group(3))]
+            else:
+                t[m.group(1)] = [(int(a), int(b)) for a, b in re.findall(r"\((\d+), (\d+)\)", m.group(3))]
+    return t
+
+
+class WaitCap(Exception):
+    """the scripted `time.sleep` was called as often as the model has fuel"""
+
+
+class FakeTime(object):
+    """stands in for the module `time` inside machine_controller during one call: scripted integer
+    clock; every sleep lets the simulated machine move on by one step of the evolution script"""
+
+    def __init__(self, machine, clock, evolve, cap):
+        self.machine, self.clock, self.evolve, self.cap = machine, clock, evolve, cap
+        self.reads = 0
+        self.sleeps = []
+
+    def time(self):
+        if self.reads >= len(self.clock):
+            raise Infra("clock script exhausted")
+        v = self.clock[self.reads]
+        self.reads += 1
+        return v
+
+    def sleep(self, d):
+        k = len(self.sleeps)
+        self.sleeps.append(d)
+        for x, y, p, st, app in (self.evolve[k] if k < len(self.evolve) else []):
+            self.machine.cores[(x, y, p)] = (st, app, self.machine.core(x, y, p)[2])
+        if len(self.sleeps) >= self.cap:
+            raise WaitCap()
+
+
+def py_arg(spec, enum):
+    """{"name": s} -> the str; {"value": n, "as": "int" | "member"} -> the int or the enum member"""
+    if "name" in spec:
+        return spec["name"]
+    return enum(spec["value"]) if spec.get("as") == "member" else spec["value"]
+
+
+def lean_arg(spec):
+    return spec["name"] if "name" in spec else spec["value"]
+
+
+def gen_arg(rng, table, enum_name):
+    names = [n for n, _ in table]
+    vals = [v for _, v in table]
+    r = rng.random()
+    if r < 0.45:
+        return {"name": rng.choice(names)}
+    if r < 0.65:
+        return {"value": rng.choice(vals), "as": "member"}
+    if r < 0.85:
+        return {"value": rng.choice(vals), "as": "int"}
+    if r < 0.93:
+        return {"name": rng.choice(["nosuch", "Wait", "waiting", "", "start_", "run "])}
+    return {"value": rng.choice([v for v in (12, 13, 14, 16, 17, 31, 255, 256) if v not in vals]), "as": "int"}
+
+
+def gen_sig_case(rng, t):
+    chips = dedup(gen_chips(rng))[:10]
+    app_id = rng.choice([16, 30, 66, 255, rng.randrange(1, 256)])
+    other = app_id % 255 + 1
+    st_vals = [v for _, v in t["appStates"]]
+    all_cores = [(x, y, p) for (x, y) in chips for p in range(18)]
+    pre = {}
+    for core in rng.sample(all_cores, min(len(all_cores), rng.randrange(0, 12))):
+        pre[core] = [core[0], core[1], core[2], rng.choice(st_vals + [WAIT, WAIT, RUN]),
+                     rng.choice([app_id, app_id, app_id, other]), [rng.randrange(256) for _ in range(4)]]
+    case = {"chips": chips, "sdram_sys": 0x60000000, "vcpu_base": 0xe5007000, "app_id": app_id,
+            "pre": [pre[c] for c in sorted(pre)]}
+    kind = rng.choice(["signal", "count", "count", "wait", "wait", "wait"])
+    case["kind"] = kind
+    if kind == "signal":
+        case["signal"] = gen_arg(rng, t["appSignals"], "AppSignal")
+        if rng.random() < 0.35:
+            case["signal"] = rng.choice([{"name": "start"}, {"value": 3, "as": "member"}, {"value": 3, "as": "int"}])
+        return case
+
+    def state_arg():
+        if rng.random() < 0.5:
+            a = gen_arg(rng, t["appStates"], "AppState")
+            if rng.random() < 0.5:
+                a = rng.choice([{"name": "wait"}, {"name": "run"}, {"value": WAIT, "as": "member"}])
+            return a, None
+        n = rng.choice([0, 1, 2, 2, 3, 4])
+        l = [gen_arg(rng, t["appStates"], "AppState") for _ in range(n)]
+        if rng.random() < 0.6:      # mostly valid lists
+            l = [a for a in l if ("name" in a and a["name"] in dict(t["appStates"])) or
+                 ("value" in a and a["value"] in st_vals)] or [{"name": "wait"}]
+        return l, rng.choice(["list", "tuple", "gen"])
+    case["state"], case["container"] = state_arg()
+    if kind == "count":
+        return case
+    if case["container"] == "gen":
+        # a generator is consumed by the first poll (later polls would sum nothing): the model's
+        # iterable is re-iterable, as every caller's list / tuple / set of states is
+        case["container"] = "tuple"
+    # wait: target count, timeout, clock script, evolution of the machine during the sleeps
+    n_now = sum(1 for c in pre.values() if c[4] == app_id)
+    case["count"] = rng.choice([0, 1, 2, 3, n_now, n_now + 1, n_now + 2, 40])
+    steps = rng.randrange(0, 6)
+    evolve = []
+    for _ in range(steps):
+        ups = []
+        for core in rng.sample(all_cores, min(len(all_cores), rng.choice([0, 1, 1, 2, 3]))):
+            ups.append([core[0], core[1], core[2], rng.choice([WAIT, WAIT, WAIT, RUN, IDLE] + st_vals[:4]),
+                        rng.choice([app_id, app_id, app_id, other])])
+        evolve.append(ups)
+    case["evolve"] = evolve
+    case["fuel"] = rng.choice([4, 6, 9])
+    if rng.random() < 0.7:
+        tmo = rng.choice([0, 1, 2, 3, 5, 8])
+        t0 = rng.randrange(0, 1000)
+        clock, now = [t0], t0
+        style = rng.choice(["unit", "unit", "jumps", "stalls"])
+        for _ in range(case["fuel"] + 2):
+            now += 1 if style == "unit" else rng.choice([0, 1, 2, 5]) if style == "jumps" else rng.choice([0, 0, 1])
+            clock.append(now)
+        case["timeout"], case["clock"] = tmo, clock
+    else:
+        case["timeout"], case["clock"] = None, []
+    case["poll"] = rng.choice([0.1, 0.25, 1.0])
+    return case
+
+
+def run_sig_impl(case, k, t):
+    from rig.machine_control import machine_controller as mcm
+    from rig.machine_control import scp_connection as sc
+    from rig.machine_control import consts
+    machine = LoadMachine(case["chips"], 256, case["sdram_sys"], case["vcpu_base"], [], case["pre"], k)
+    net = simnet.Net(machine.handle, lambda i, d: None)
+    res = {"sleeps": []}
+
+    def state_value():
+        st = case["state"]
+        if isinstance(st, list):
+            vals = [py_arg(a, consts.AppState) for a in st]
+            return {"list": list, "tuple": tuple, "gen": lambda v: (x for x in v)}[case["container"]](vals)
+        return py_arg(st, consts.AppState)
+    with simnet.installed(net):
+        mc = simmachine.make_controller(net, timeout=4.0)
+        try:
+            if case["kind"] == "signal":
+                mc.send_signal(py_arg(case["signal"], consts.AppSignal), case["app_id"])
+                res["result"] = "ok"
+            elif case["kind"] == "count":
+                res["result"] = {"count": int(mc.count_cores_in_state(state_value(), case["app_id"]))}
+            else:
+                fake = FakeTime(machine, case["clock"], case["evolve"], case["fuel"])
+                real = mcm.time
+                mcm.time = fake
+                try:
+                    n = mc.wait_for_cores_to_reach_state(state_value(), case["count"], case["app_id"],
+                                                         poll_interval=case["poll"], timeout=case["timeout"])
+                    res["result"] = {"count": int(n)}
+                except WaitCap:
+                    res["result"] = "out_of_fuel"
+                finally:
+                    mcm.time = real
+                    res["sleeps"] = fake.sleeps
+                    res["clock_reads"] = fake.reads
+        except ValueError:
+            res["result"] = {"error": "ValueError"}
+        except KeyError:
+            res["result"] = {"error": "KeyError"}
+        except sc.SCPError as e:
+            res["result"] = {"error": "SCPError"}
+        except (TypeError, IndexError, OverflowError, AttributeError) as e:
+            res["result"] = {"error": "%s %s" % (type(e).__name__, e)}
+    res["trace"] = machine.log
+    res["after"] = machine.cores_list()
+    return res
+
+
+def same_reply(model, sim):
+    """the specification models only count and start: `unmodelled` stands for any refusal of the simulator"""
+    if model.get("rc") == "unmodelled":
+        return sim.get("rc") != "ok"
+    return model == sim
+
+
+def eval_sig_cases(ctx, cases):
+    k = load_consts()
+    t = load_sig_tables()
+    reqs, metas = [], []
+    for case in cases:
+        res = run_sig_impl(case, k, t)
+        base = {"suite": "c09sig", "chips": case["chips"], "missed": [], "sdram_sys": case["sdram_sys"],
+                "vcpu_base": case["vcpu_base"], "cores": case["pre"], "app_id": case["app_id"]}
+        if case["kind"] == "signal":
+            reqs.append(dict(base, op="signal", signal=lean_arg(case["signal"])))
+        else:
+            st = case["state"]
+            st_j = [lean_arg(a) for a in st] if isinstance(st, list) else lean_arg(st)
+            if case["kind"] == "count":
+                reqs.append(dict(base, op="count", state=st_j))
+            else:
+                reqs.append(dict(base, op="wait", state=st_j, count=case["count"], timeout=case["timeout"],
+                                 clock=case["clock"], evolve=case["evolve"], fuel=case["fuel"]))
+        oracle = None
+        if case["kind"] == "wait" and isinstance(res["result"], dict) and "count" in res["result"]:
+            n_states = len(case["state"]) if isinstance(case["state"], list) else 1
+            n_polls = len(res["sleeps"]) + 1
+            counts = [e[1].get("arg1", 0) for e in res["trace"]]
+            polls = [sum(counts[i * n_states:(i + 1) * n_states]) for i in range(n_polls)]
+            oracle = dict(suite="c09sig", op="wait_ok", clock=case["clock"], timeout=case["timeout"],
+                          count=case["count"], polls=polls, ret=res["result"]["count"])
+            reqs.append(oracle)
+        metas.append((case, res, oracle is not None))
+    replies = ctx.lean(reqs)
+    pos = 0
+    for case, res, has_oracle in metas:
+        mo = replies[pos]
+        orc = replies[pos + 1] if has_oracle else None
+        pos += 2 if has_oracle else 1
+        for r in (mo, orc):
+            if r is not None and "proto_error" in r:
+                raise Infra("lean driver: %s" % r["proto_error"])
+        judge_sig(ctx, case, res, mo, orc)
+
+
+def judge_sig(ctx, case, res, mo, orc):
+    result = res["result"]
+    kind = case["kind"]
+    nontrivial = (kind == "wait" and len(res["sleeps"]) > 0) or (kind == "count" and isinstance(case["state"], list)) \
+        or (isinstance(result, dict) and "error" in result) or (kind == "signal" and result == "ok")
+    ctx.case(case, nontrivial)
+    ctx.traces += 1
+    rtag = "ok" if result == "ok" else "out_of_fuel" if result == "out_of_fuel" else \
+        "count" if "count" in result else result["error"].split()[0]
+    ctx.tag("sig_" + kind, "sig_" + kind + "_" + rtag)
+    if kind == "wait":
+        ctx.tag("wait_timeout" if case["timeout"] is not None else "wait_no_timeout",
+                "wait_sleeps_%s" % (min(len(res["sleeps"]), 3)))
+        if isinstance(result, dict) and "count" in result:
+            ctx.tag("wait_reached" if result["count"] >= case["count"] else "wait_timed_out")
+    it = [norm_entry(e) for e in res["trace"]]
+    mt = [norm_entry(e) for e in mo["trace"]]
+    # an SCPError is expected exactly when the machine specification does not model the request
+    refused = bool(mt) and mt[-1][1].get("rc") == "unmodelled"
+    if isinstance(result, dict) and result.get("error") == "SCPError" and refused and kind == "signal":
+        result = "ok"
+    if len(it) != len(mt) or any(a[0] != b[0] or not same_reply(b[1], a[1]) for a, b in zip(it, mt)):
+        i = next((i for i, (a, b) in enumerate(zip(it, mt)) if a[0] != b[0] or not same_reply(b[1], a[1])),
+                 min(len(it), len(mt)))
+        ctx.mismatch("c09sig.trace", "%s: request/reply %d differs (impl %d entries, model %d): impl=%r model=%r" % (
+            kind, i, len(it), len(mt), it[i:i + 1], mt[i:i + 1]), case)
+    elif result != mo["result"]:
+        ctx.mismatch("c09sig.result", "%s: impl=%r model=%r" % (kind, result, mo["result"]), case)
+    elif kind == "wait" and (len(res["sleeps"]) != mo["sleeps"] or any(d != case["poll"] for d in res["sleeps"])):
+        ctx.mismatch("c09sig.sleeps", "impl slept %r, model %d times for %r" % (res["sleeps"], mo["sleeps"], case["poll"]), case)
+    elif kind != "count" and sorted(mo["cores"]) != sorted(res["after"]):
+        ctx.mismatch("c09sig.state", "%s: final core states differ" % kind, case)
+    elif orc is not None and not orc["ok"]:
+        # the Lean specification predicate `waitOK` on the implementation's own polls and return value
+        ctx.mismatch("c09sig.wait_spec", "wait_for_cores_to_reach_state returned %r: not the last count, or the loop "
+                     "did not stop at the first poll that reached the count / passed the deadline" % (result,), case)
+
+
+def sig_fixed_cases(t):
+    """every member of AppSignal / AppState by name, as member and as int; the three loop exits"""
+    base = {"chips": [[0, 0], [1, 0]], "sdram_sys": 0x60000000, "vcpu_base": 0xe5007000, "app_id": 30,
+            "pre": [[0, 0, 1, WAIT, 30, [1, 2, 3, 4]], [1, 0, 2, WAIT, 30, [1, 2, 3, 4]], [1, 0, 3, RUN, 30, [5, 6, 7, 8]],
+                    [0, 0, 4, WAIT, 31, [1, 2, 3, 4]]]}
+    out = []
+    for name, v in t["appSignals"]:
+        for spec in ({"name": name}, {"value": v, "as": "member"}, {"value": v, "as": "int"}):
+            out.append(dict(base, kind="signal", signal=spec))
+    for name, v in t["appStates"]:
+        for spec in ({"name": name}, {"value": v, "as": "member"}, {"value": v, "as": "int"}):
+            out.append(dict(base, kind="count", state=spec, container=None))
+    out.append(dict(base, kind="count", state=[{"name": n} for n, _ in t["appStates"]], container="list"))
+    out.append(dict(base, kind="count", state=[{"name": "wait"}, {"name": "nosuch"}, {"name": "run"}], container="tuple"))
+    wait = dict(base, kind="wait", state={"name": "wait"}, container=None, poll=0.1, fuel=6,
+                evolve=[[], [[0, 0, 7, WAIT, 30]], [[0, 0, 8, WAIT, 30]]])
+    out.append(dict(wait, count=2, timeout=None, clock=[]))                       # reached at once
+    out.append(dict(wait, count=4, timeout=None, clock=[]))                       # reached after three sleeps
+    out.append(dict(wait, count=9, timeout=2, clock=[10, 11, 12, 13, 14, 15, 16, 17]))   # deadline passes
+    out.append(dict(wait, count=9, timeout=None, clock=[]))                       # never: out of fuel
+    out.append(dict(wait, count=9, timeout=1000, clock=[10] * 8))                 # clock stalls: out of fuel
+    return out
+
+
+def run_sig(ctx):
+    t = load_sig_tables()
+    cases = sig_fixed_cases(t)
+    n = ctx.scale(150, 3000)
+    if ctx.extended:
+        n *= 4
+    for _ in range(n):
+        cases.append(gen_sig_case(ctx.rng, t))
+    for i in range(0, len(cases), 200):
+        eval_sig_cases(ctx, cases[i:i + 200])
 
 
 def run(ctx):
@@ -674,10 +1082,15 @@ def run(ctx):
         "image length and buffer size multiples of 4, at most 255 blocks per binary (beyond: known finding)",
         "requested chips are chips of the machine, cores < 18, binaries target disjoint cores",
         "PreClean for the soundness/exactness theorems: no core waits under the app id, no requested core waits",
-        "compress_flood_fill_regions meets its contract (C12); checked per call by the Lean predicate regionsOK",
+        "compress_flood_fill_regions meets its contract (C12): proved for C12's model (compress_contract_discharged), "
+        "checked per call on the implementation's pairs by the Lean predicate regionsOK; the controller model with C12's "
+        "compress must reproduce the implementation's trace",
+        "each requested core is listed once (dict / set semantics of the application map) for the count clause of staleMasks",
+        "wait_for_cores_to_reach_state: integer clock and machine evolution are environment inputs; iterable of states re-iterable",
         "SCP commands themselves are delivered (C06); signals (count, start) are reliable"]
     try:
-        cases = [stale_count_case(), stale_readback_case(), overflow_case()]
+        cases = [stale_count_case(), stale_readback_case(), overflow_case(),
+                 stale_more_case(1), stale_more_case(2), stale_more_case(3), stale_more_case(5)]
         n = ctx.scale(300, 6000)
         if ctx.extended:
             n *= 4
@@ -687,6 +1100,7 @@ def run(ctx):
             cases += exhaustive_missed()
         for i in range(0, len(cases), 100):
             eval_cases(ctx, cases[i:i + 100])
+        run_sig(ctx)
     finally:
         if _TMP[0]:
             shutil.rmtree(_TMP[0], ignore_errors=True)
@@ -713,7 +1127,10 @@ def exhaustive_missed():
 def replay(ctx, payload):
     ctx.extra["rule"] = RULE
     try:
-        eval_cases(ctx, [payload["case"]])
+        if "kind" in payload["case"]:
+            eval_sig_cases(ctx, [payload["case"]])
+        else:
+            eval_cases(ctx, [payload["case"]])
     finally:
         if _TMP[0]:
             shutil.rmtree(_TMP[0], ignore_errors=True)
